@@ -43,3 +43,16 @@ impl core::ops::BitOrAssign for Flags {
       ensures forall|i: u8| 0 <= i < 8 ==> #[trigger] final(self).has(i) == (old(self).has(i) || rhs.has(i))
     { proof { lemma_or_bits(self.bits, rhs.bits); } self.bits = self.bits | rhs.bits; }
 }
+// further bit operators of the bitflags type (not used by the repository; present so that a changed operator is decided)
+impl vstd::std_specs::ops::BitXorAssignSpecImpl for Flags {
+    open spec fn obeys_bitxor_assign_spec() -> bool { true }
+    open spec fn bitxor_assign_req(&self, rhs: Flags) -> bool { true }
+    open spec fn bitxor_assign_spec(&self, rhs: Flags) -> Flags { Flags { bits: self.bits ^ rhs.bits } }
+}
+impl core::ops::BitXorAssign for Flags { fn bitxor_assign(&mut self, rhs: Flags) { self.bits = self.bits ^ rhs.bits; } }
+impl vstd::std_specs::ops::BitAndSpecImpl for Flags {
+    open spec fn obeys_bitand_spec() -> bool { true }
+    open spec fn bitand_req(self, rhs: Flags) -> bool { true }
+    open spec fn bitand_spec(self, rhs: Flags) -> Flags { Flags { bits: self.bits & rhs.bits } }
+}
+impl core::ops::BitAnd for Flags { type Output = Flags; fn bitand(self, rhs: Flags) -> (r: Flags) { Flags { bits: self.bits & rhs.bits } } }
